@@ -273,6 +273,63 @@ def run_tasks(tasks, budget_s=None, nproc=None):
     return merged, sorted(timings)
 
 
+# -- ambient interpreter configuration -----------------------------------
+
+def optimized_child(col, prop, subs):
+    """Re-run the named (deterministic, cheap) sub-checks of `prop` in a
+    `python -O` child process: assert statements and `if __debug__:` blocks
+    are compiled away there, so validation that leans on them disappears.
+    The property does not depend on interpreter flags; every violation the
+    child reports is a violation (its replay record carries
+    python_flags=['-O'] so that --replay re-creates the configuration)."""
+    import glob
+    import re
+    import shutil
+    import subprocess
+    import tempfile
+    sub = 'python-O'
+    root = '/dev/shm' if os.path.isdir('/dev/shm') and \
+        os.access('/dev/shm', os.W_OK) else tempfile.gettempdir()
+    out = tempfile.mkdtemp(prefix='vcheck-O-', dir=root)
+    try:
+        env = dict(os.environ, VERIF_OUT=out, VERIF_CHILD='1',
+                   VERIF_NPROC='4', PYTHONHASHSEED='0')
+        p = subprocess.run(
+            [sys.executable, '-O', '-m', 'vcheck', prop, '--tier', 'quick',
+             '--only', ','.join(subs)],
+            cwd=VERIF_DIR, env=env, stdout=subprocess.PIPE,
+            stderr=subprocess.STDOUT, text=True)
+        m = re.search(r'evaluations=(\d+) distinct_nontrivial=(\d+)', p.stdout)
+        if p.returncode == 1:
+            recs = []
+            for f in sorted(glob.glob(os.path.join(
+                    out, 'replays', 'found', prop, '*.json'))):
+                with open(f) as fh:
+                    recs.append(json.load(fh))
+            if not recs:
+                raise HarnessError('python -O child reported a violation '
+                                   'without a replay:\n' + p.stdout[-2000:])
+            for r in recs:
+                case = r.get('case')
+                if isinstance(case, dict):
+                    case = dict(case, python_flags=['-O'])
+                v = Violation(r.get('sub', sub),
+                              'under python -O: ' + r.get('msg', ''), case)
+                col.fail(v)
+            return
+        if p.returncode != 0 or not m:
+            raise HarnessError('python -O child failed (rc=%d):\n%s'
+                               % (p.returncode, p.stdout[-2000:]))
+        n, nt = int(m.group(1)), int(m.group(2))
+        col.case(sub, (prop, '-O'), True, 'python -O',
+                 {'python_flags': ['-O'], 'subs': list(subs),
+                  'evaluations_in_child': n})
+        col.count(sub, max(0, n - 1), 'python -O/evaluations')
+        col.distinct_extra += max(0, nt - 1)
+    finally:
+        shutil.rmtree(out, ignore_errors=True)
+
+
 # -- Hypothesis glue -------------------------------------------------------
 
 def hyp_settings(max_examples, shrink=True, stateful_step_count=None):
